@@ -173,14 +173,17 @@ fn dict_map_concrete<const NL: usize, const NR: usize>(spec: &Spec, lmap: [u16; 
             }
         }
     }
+    // the dictionary came back inside a `Result`: go to the matrix arm directly (a lost enum
+    // discriminant makes CBMC explore the raw/dual arms of every dispatch)
+    let mc = matrix_of(d.verif_connector());
     for r in 0..nr {
         for l in 0..nl {
-            assert!(d.verif_conn_cost(newr[r], newl[l]) == cost_before[r][l],
+            assert!(mc.cost(newr[r], newl[l]) == cost_before[r][l],
                 "connection cost between mapped ids differs from the original");
         }
     }
     assert!(d.verif_mapper().is_some());
-    kani::cover!(before[0].left_id == 1 && before[0].right_id == 2);
+    kani::cover!(before[0].left_id == 1 && before[0].right_id == 1);
     core::mem::forget(d);
 }
 
@@ -389,4 +392,120 @@ fn c06_mapper_twin() {
         assert!(m.left(1) == 1, "VACUITY: non-identity permutations are accepted");
         core::mem::forget(m);
     }
+}
+
+// ---------------------------------------------------------------------------------------
+// raw and dual connectors
+// ---------------------------------------------------------------------------------------
+#[cfg(kani)]
+fn sym_block() -> ([U31; 8], U31x8) {
+    let mut a = [U31::default(); 8];
+    for i in 0..8 {
+        let x: u32 = kani::any();
+        kani::assume(x <= 0x7fff_ffff);
+        a[i] = U31::new(x).unwrap();
+    }
+    (a, U31x8::verif_from_array(a))
+}
+
+fn same_block(x: &U31x8, a: &[U31; 8]) -> bool {
+    let b = x.verif_to_array();
+    let mut ok = true;
+    for i in 0..8 {
+        if b[i].get() != a[i].get() {
+            ok = false;
+        }
+    }
+    ok
+}
+
+//@ c06_raw_connector_mapping {"desc":"RawConnector::map_connection_ids moves every id's feature rows to its new id (both sides, 3-cycles), so cost(map r, map l) = cost(r, l) for any scorer","bounds":"4 right ids x 4 left ids, 1 block (8 lanes) per id; right mapping [2,3,1], left mapping [3,1,2]","symbolic":"all feature rows","functions":["RawConnector::map_connection_ids","RawConnector::num_left","RawConnector::num_right","ConnIdMapper::from_iter"],"unwind":10,"fs":2048,"timeout":1200,"stubs":["alloc::fmt::format"]}
+#[cfg(kani)]
+#[kani::proof]
+#[kani::stub(alloc::fmt::format, stub_format)]
+fn c06_raw_connector_mapping() {
+    let mut rr = [[U31::default(); 8]; 4];
+    let mut lr = [[U31::default(); 8]; 4];
+    let mut rv = Vec::with_capacity(4);
+    let mut lv = Vec::with_capacity(4);
+    for i in 0..4 {
+        let (a, x) = sym_block();
+        rr[i] = a;
+        rv.push(x);
+        let (b, y) = sym_block();
+        lr[i] = b;
+        lv.push(y);
+    }
+    let mut conn = RawConnector::new(rv, lv, 1, Scorer::verif_from_parts(Vec::new(), Vec::new(), Vec::new()));
+    let lmap = [3u16, 1, 2];
+    let rmap = [2u16, 3, 1];
+    let m = match ConnIdMapper::from_iter(lmap.iter().cloned(), rmap.iter().cloned()) {
+        Ok(m) => m,
+        Err(_) => unreachable!(),
+    };
+    conn.map_connection_ids(&m);
+    assert!(conn.num_left() == 4 && conn.num_right() == 4);
+    for old in 0..4 {
+        let nr = m.right(old as u16) as usize;
+        let nl = m.left(old as u16) as usize;
+        assert!(same_block(&conn.verif_right_feat_ids()[nr], &rr[old]), "a right id's feature row did not move with the id");
+        assert!(same_block(&conn.verif_left_feat_ids()[nl], &lr[old]), "a left id's feature row did not move with the id");
+    }
+    assert!(m.right(2) == 1 && m.left(3) == 1);
+    kani::cover!(rr[1][0].get() != rr[2][0].get());
+    core::mem::forget(conn);
+}
+
+//@ c06_dual_connector_mapping {"desc":"DualConnector::map_connection_ids: raw rows and matrix classes move with the ids and the renumbered class matrix gives the same matrix part for every pair","bounds":"3 right ids x 3 left ids, 2x2 class matrix, swaps on both sides","symbolic":"class maps (onto), matrix cells, raw rows","functions":["DualConnector::map_connection_ids","MatrixConnector::map_connection_ids","DualConnector::cost"],"unwind":10,"fs":2048,"timeout":1800,"mem_gb":16,"stubs":["alloc::fmt::format"]}
+#[cfg(kani)]
+#[kani::proof]
+#[kani::stub(alloc::fmt::format, stub_format)]
+fn c06_dual_connector_mapping() {
+    let m0 = sym_matrix(2, 2);
+    // class maps as the builder produces them: id 0 is class 0, every class is used
+    let rmap_c = [0u16, any_below_u16(2), any_below_u16(2)];
+    let lmap_c = [0u16, any_below_u16(2), any_below_u16(2)];
+    kani::assume(rmap_c[1] == 1 || rmap_c[2] == 1);
+    kani::assume(lmap_c[1] == 1 || lmap_c[2] == 1);
+    let mut rr = [[U31::default(); 8]; 3];
+    let mut lr = [[U31::default(); 8]; 3];
+    let mut rv = Vec::with_capacity(3);
+    let mut lv = Vec::with_capacity(3);
+    for i in 0..3 {
+        let (a, x) = sym_block();
+        rr[i] = a;
+        rv.push(x);
+        let (b, y) = sym_block();
+        lr[i] = b;
+        lv.push(y);
+    }
+    let mut before = [[0i32; 3]; 3];
+    for r in 0..3 {
+        for l in 0..3 {
+            before[r][l] = m0.cost(rmap_c[r], lmap_c[l]);
+        }
+    }
+    let mut conn = DualConnector::verif_from_parts(m0, vec![rmap_c[0], rmap_c[1], rmap_c[2]], vec![lmap_c[0], lmap_c[1], lmap_c[2]], rv, lv,
+        Scorer::verif_from_parts(Vec::new(), Vec::new(), Vec::new()));
+    let m = match ConnIdMapper::from_iter([2u16, 1].iter().cloned(), [2u16, 1].iter().cloned()) {
+        Ok(m) => m,
+        Err(_) => unreachable!(),
+    };
+    conn.map_connection_ids(&m);
+    assert!(conn.num_left() == 3 && conn.num_right() == 3);
+    for old in 0..3 {
+        let nr = m.right(old as u16) as usize;
+        let nl = m.left(old as u16) as usize;
+        assert!(same_block(&conn.verif_right_feat_ids()[nr], &rr[old]));
+        assert!(same_block(&conn.verif_left_feat_ids()[nl], &lr[old]));
+    }
+    // matrix part through the (renumbered) classes; the raw scorer is empty, so cost = matrix part
+    for r in 0..3 {
+        for l in 0..3 {
+            let c = conn.cost(m.right(r as u16), m.left(l as u16));
+            assert!(c == before[r][l], "matrix part changed under remapping");
+        }
+    }
+    kani::cover!(rmap_c[1] == 1 && rmap_c[2] == 0);
+    core::mem::forget(conn);
 }
